@@ -128,6 +128,44 @@ func ruleSelectorFilters(c *Ctx) {
 		}
 	}
 	c.Check(hasParam && hasField, rule, "extra filters in "+fnName(sel), "caller-supplied filters and the strategy's own filters (rule label constraints) are part of the set", P.pos(sel.Pos()), "")
+	// ... on every path: each of the two lists is appended unless it is empty
+	var filterParam ssa.Value
+	for _, p := range sel.Params {
+		if isFilterSlice(p.Type()) {
+			filterParam = p
+		}
+	}
+	appended := func(name string, src valPred) Ev {
+		return &calledEv{name: name + " appended", match: func(x ssa.Instruction) bool {
+			cl, ok := x.(*ssa.Call)
+			if !ok {
+				return false
+			}
+			b, isB := cl.Call.Value.(*ssa.Builtin)
+			if !isB || b.Name() != "append" || len(cl.Call.Args) != 2 || !isFilterSlice(cl.Type()) {
+				return false
+			}
+			// which list is appended may depend on the path (extraFilters = s.extraFilters)
+			return derivesFrom(resolved(cl.Call.Args[1]), src, 3) && !isPhiValue(resolved(cl.Call.Args[1]))
+		}}
+	}
+	for _, b := range sel.Blocks {
+		for _, ins := range b.Instrs {
+			if phi, ok := ins.(*ssa.Phi); ok && isFilterSlice(phi.Type()) {
+				trackPhis[sel] = append(trackPhis[sel], phi)
+			}
+		}
+	}
+	isParam := func(v ssa.Value) bool { return filterParam != nil && v == filterParam }
+	isField := func(v ssa.Value) bool { return isLoadOf(v, extraField) }
+	if len(chain) > 0 {
+		first := chain[0].Site.(ssa.Instruction)
+		c.need(rule, sel, "first filter stage", func(x ssa.Instruction) bool { return x == first },
+			[]Ev{appended("caller filters", isParam), guardRel("no caller filters", "== <=", lenOf(isParam), isConstInt(0)),
+				appended("strategy filters", isField), guardRel("no strategy filters", "== <=", lenOf(isField), isConstInt(0))},
+			func(h []bool) bool { return (h[0] || h[1]) && (h[2] || h[3]) },
+			"on every path both the caller's filters and the strategy's own filters (the rule's label constraints) were appended, unless empty")
+	}
 	// the rule checker's strategy carries the rule's label constraints
 	strat := P.Method(chk, "RuleChecker", "strategy")
 	okLC := false
@@ -605,6 +643,8 @@ func ruleNoInPlaceCompaction(c *Ctx) {
 		c.Undec(rule, "appends in server/schedule/filter", "at least 5", "", fmt.Sprintf("found %d", n))
 	}
 }
+
+func isPhiValue(v ssa.Value) bool { _, ok := v.(*ssa.Phi); return ok }
 
 func init() {
 	register("C10", "Replica repair never targets bad stores nor shrinks healthy replication", func(c *Ctx) {
